@@ -29,7 +29,7 @@ POINTS = ['lazy_required', 'provided_hash', 'provided_eq', 'name_hash', 'name_bo
           'uncached_entry', 'uncached_exit', 'spec_weakref', 'spec_subscribe', 'providedBy_descr', 'provides_descr',
           'conform', 'factory', 'value_del', 'generation_attr', 'generation_attr_2nd', 'ro_attr', 'super_self']
 ACTIONS = ['register', 'unregister', 'subscribe', 'unsubscribe', 'changed', 'rebase', 'reenter_same',
-           'reenter_other', 'raise', 'gc', 'register_flood', 'changed_flood', 'reenter_then_base', 'spec_rebase', 'declare', 'rebuild']
+           'reenter_other', 'raise', 'gc', 'register_flood', 'changed_flood', 'reenter_then_base', 'spec_rebase', 'declare', 'rebuild', 'reenter_then_changed']
 
 
 class Boom(Exception):
@@ -437,6 +437,14 @@ class Case:
             self.reentrant_results.append(self.call_entry(self.reg, self.entry, hostile=False))
             self.release_audit(lambda: (self.mutate('top', 'subscribe', [self.IR0], self.IP, self.newval()),
                                         self.mutate('top', 'register', [self.IR0], self.IP, 'zz', self.newval())))
+        elif a == 'reenter_then_changed':
+            # three steps: the interrupted lookup holds its cache; a lookup made from the callback fills the registry's caches
+            # again; then they are dropped once more (with the dict-free-list flood, so that they really go away)
+            self.reentrant_results.append(self.call_entry(self.reg, self.entry, hostile=False))
+            self.reentrant_results.append(self.reg.lookupAll([self.IR], self.IP))
+            self.reentrant_results.append(self.reg.subscriptions([self.IR], self.IP))
+            flood()
+            self.release_audit(lambda: self.reg.changed(self.reg))
         elif a == 'spec_rebase':
             # the required specification being looked up loses its base: what the registries above registered for that base
             # does not apply any more (the invalidation arrives through the specification's dependents)
